@@ -31,7 +31,7 @@ import hashlib
 import json
 from collections import Counter
 
-from ..common import ROOT, Ctx, drive, lean_phase
+from ..common import ROOT, Ctx, InfraError, drive, lean_phase
 from . import lexwire as L
 from .lexwire import (OPTOK, QT, dec_sent, enc_param, enc_sent, param_tok, parse_param,
                       struct_eq, walk)
@@ -656,7 +656,7 @@ def run(ctx: Ctx):
         'harness/props/lexwire.py walk / struct_eq (flat prefix-order walk over the primary fields) and '
         'harness/props/c15.py canonicalisation (Python sorted() of the published frozensets)',
         'constructors Atomic / Predicated / Quantified / Operated store the fields they are given '
-        '(checked on every generated sentence by decode(encode(s)) in the generators\' self-test, not proved)',
+        '(every random sentence is re-built from its token encoding and walked again; not proved)',
         'the LexicalAbcMeta instance cache is not modelled: a cached instance is structurally the requested one '
         '(observed through walk on every result)']
     ctx.coverage['rule'] = ('one evaluation = one case (substitute of one ordered parameter pair into one sentence / one '
@@ -693,11 +693,13 @@ def run(ctx: Ctx):
     ctx.add_cov(exhaustive=reached)
 
     # 3. seeded random
-    nrand = ctx.scale(1000, 25000)
+    nrand = ctx.scale(1000, 15000)
     for i in range(nrand):
         d = 6 if i % 5 == 0 else rng.randint(1, 6)
         s = L.rand_sentence(rng, d)
         w = walk(s)
+        if walk(dec_sent(enc_sent(s))) != w:
+            raise InfraError(f'encode / decode round trip changes the sentence [{enc_sent(s)}]')
         r.sentence(s, random_pairs(rng, w), random_consts(rng, w), 'random')
         for q in quantified_subsentences(s):
             wq = walk(q)
